@@ -222,6 +222,30 @@ def edgeAccessShare (ac : Option α) : α :=
   | none => zero
   | some a => zero + a
 
+/-- the cost bookkeeping of `EdgeTraversal::forward_traversal` / `reverse_traversal`.
+`trav` is the traversed edge, `pair` the `(prev_edge, next_edge)` pair handed to `access_cost` when the
+optional neighbouring edge is present (forward: `(previous edge, trav)`, reverse: `(trav, next edge)`),
+`prev` the state before, `accessed` the state after `access_model.access_edge`, `next` the state after
+`traversal_model.traverse_edge`.  Returns the `access_cost` and `traversal_cost` fields of the record;
+`none` = the `Err` of either cost-model call. -/
+def CostModel.edgeTraversal (m : CostModel α) (trav : Nat) (pair : Option (Nat × Nat))
+    (prev accessed next : List α) : Option (α × α) :=
+  match pair with
+  | none =>
+    match m.traversalCost trav prev next with
+    | some t => let acc : α := edgeAccessShare none; some (acc, t - acc)
+    | none => none
+  | some (pe, ne) =>
+    match m.accessCost pe ne prev accessed with
+    | none => none
+    | some a =>
+      match m.traversalCost trav prev next with
+      | some t => let acc : α := edgeAccessShare (some a); some (acc, t - acc)
+      | none => none
+
+/-- `EdgeTraversal::total_cost`: `access_cost + traversal_cost` -/
+def edgeRecordTotal (r : α × α) : α := r.1 + r.2
+
 end
 
 end Compass
